@@ -10,7 +10,10 @@ RULE = (
     "Solver histories in which 2-3 solvers are first built by independent random sub-histories (branched from a common ancestor or "
     "unrelated; often queried first so that model caches are populated) and then merged (with and without a common ancestor, with "
     "overlapping / true / false conditions), combined or split, on Solver, SolverCacheless, SolverComposite, SolverHybrid and "
-    "SolverReplacement; the result is itself queried afterwards. Oracle, on brute-force model sets over 2^17 assignments: merge "
+    "SolverReplacement; the result is itself queried afterwards. Directed families: split of one solver whose variable groups "
+    "are linked by later conjuncts through variables the other members do not mention (a-b, c-d, then b-c; generated add order and "
+    "batching), and three solvers that share history pairwise but not all together (s1 branched from s0 after s0 moved on, s2 from the "
+    "root) merged / combined with any receiver. Oracle, on brute-force model sets over 2^17 assignments: merge "
     "without ancestor = union_i(cond_i & M_i); with ancestor = M_anc & (cond_0 | cond_1 | ...); combine = intersection of all; split: "
     "the parts' constraint groups share no variables and the intersection of the parts' model sets equals the solver's model set; "
     "every later answer of the result is checked against the computed set. Operands are distinct solvers of one class. Non-trivial: an "
@@ -97,6 +100,89 @@ def scenarios(draw):
     return hist
 
 
+@st.composite
+def split_scenarios(draw):
+    """One solver whose conjuncts form variable groups that later conjuncts link -- transitively, and through variables that other
+    members of the linked groups do not mention (a-b, c-d, then b-c) -- among single-variable and variable-free conjuncts, in a
+    generated order; then split(), then queries on the parts."""
+    a, b, c, d = [("var", n, sm.W) for n in draw(st.permutations(sm.BVVARS))]
+    kc = lambda: ("const", draw(st.sampled_from(sm.CONSTS)), sm.W)  # noqa: E731
+    rel = lambda u, v: (draw(st.sampled_from(("ult", "ule", "ne", "uge", "slt"))), u, v)  # noqa: E731
+    pairs = [rel(a, b), rel(c, d)]
+    links = draw(st.sampled_from(([rel(b, c)], [rel(a, d)], [rel(b, c), rel(a, d)], [], [("ule", ("bvadd", b, c), kc())], [("or", ("bvar", "p"), rel(b, c))])))
+    singles = [(draw(st.sampled_from(("ule", "uge", "ne"))), draw(st.sampled_from((a, b, c, d))), kc()) for _ in range(draw(st.integers(0, 2)))]
+    consts_ = [("bconst", True)] if draw(st.integers(0, 4)) == 0 else []
+    order = draw(st.sampled_from(("pairs-first", "links-first", "shuffled")))
+    if order == "pairs-first":
+        cs = pairs + singles + links + consts_
+    elif order == "links-first":
+        cs = links + pairs + singles + consts_
+    else:
+        cs = list(draw(st.permutations(pairs + links + singles + consts_)))
+    hist = []
+    i = 0
+    while i < len(cs):
+        k = draw(st.integers(1, 3))
+        hist.append({"op": "add", "s": 0, "cs": cs[i : i + k], "as_list": True})
+        i += k
+        if draw(st.integers(0, 3)) == 0:
+            hist.append(draw(st.sampled_from(({"op": "sat", "s": 0, "extra": []}, {"op": "eval", "s": 0, "e": a, "n": 2, "extra": []}))))
+    hist.append({"op": "split", "s": 0})
+    for t in range(1, 5):
+        hist.append({"op": "sat", "s": t, "extra": []})
+        hist.append({"op": "eval", "s": t, "e": draw(st.sampled_from((a, b, c, d))), "n": 300, "extra": []})
+    return hist
+
+
+@st.composite
+def chain_merge_scenarios(draw):
+    """Solvers that share part of their history pairwise but not all together: s1 is branched from s0 after s0 has moved on from the
+    root, s2 from the root itself; each then gets constraints of its own (on a variable the shared part already constrains, and on
+    fresh ones); then a three-way merge / combine with any of them as the receiver, with and without the root as common ancestor."""
+    w, x, y, z = [("var", n, sm.W) for n in draw(st.permutations(sm.BVVARS))]
+    kc = lambda: ("const", draw(st.sampled_from(sm.CONSTS)), sm.W)  # noqa: E731
+    cmpc = lambda v: (draw(st.sampled_from(("ule", "ult", "uge", "ugt", "ne", "eq"))), v, kc())  # noqa: E731
+    hist = [{"op": "add", "s": 0, "cs": [cmpc(w)], "as_list": False}]
+    if draw(st.booleans()):
+        hist.append({"op": "sat", "s": 0, "extra": []})
+    hist.append({"op": "branch", "s": 0})  # live 1: stays at the root for now
+    hist.append({"op": "add", "s": 0, "cs": [cmpc(x)], "as_list": False})
+    if draw(st.booleans()):
+        hist.append({"op": "eval", "s": 0, "e": x, "n": draw(st.sampled_from((1, 300))), "extra": []})
+    hist.append({"op": "branch", "s": 0})  # live 2: shares w- and x-constraints with live 0
+    hist.append({"op": "add", "s": 2, "cs": [draw(st.sampled_from((cmpc(z), cmpc(x), ("eq", z, kc()))))], "as_list": False})
+    hist.append({"op": "add", "s": 1, "cs": [draw(st.sampled_from((cmpc(x), ("uge", x, kc()))))], "as_list": False})
+    if draw(st.booleans()):
+        hist.append({"op": "add", "s": 1, "cs": [cmpc(y)], "as_list": False})
+    if draw(st.integers(0, 2)) == 0:
+        hist.append({"op": "add", "s": 0, "cs": [draw(st.sampled_from((cmpc(y), cmpc(x))))], "as_list": False})
+    for j in range(3):
+        if draw(st.integers(0, 2)) == 0:
+            hist.append({"op": "sat", "s": j, "extra": []})
+    recv = draw(st.integers(0, 2))
+    others = list(draw(st.permutations([j for j in range(3) if j != recv])))
+    if draw(st.integers(0, 3)):
+        sel = draw(st.sampled_from((w, x, y, z)))
+        conds = draw(st.sampled_from(([("eq", sel, ("const", 0, sm.W)), ("eq", sel, ("const", 1, sm.W)), ("eq", sel, ("const", 2, sm.W))],
+                                      [("bconst", True), ("bconst", True), ("bconst", True)], [("bconst", True), ("bconst", False), ("ule", sel, kc())],
+                                      [("ult", sel, kc()), ("uge", sel, kc()), ("bconst", True)])))
+        hist.append({"op": "merge", "s": recv, "others": others, "conds": conds, "ancestor": draw(st.sampled_from((None, None, 1)))})
+    else:
+        hist.append({"op": "combine", "s": recv, "others": others})
+    for _ in range(draw(st.integers(3, 6))):
+        q = draw(st.sampled_from(("sat", "eval", "eval", "batch", "min")))
+        v = draw(st.sampled_from((w, x, y, z)))
+        stp = {"op": q, "s": 3, "extra": []}
+        if q == "eval":
+            stp.update(e=v, n=300)
+        elif q == "batch":
+            stp.update(es=[x, v], n=300)
+        elif q == "min":
+            stp.update(e=v, signed=False)
+        hist.append(stp)
+    return hist
+
+
 def run_shard(shard, ctx):  # noqa: F811 - replaces the purely random driver above
     if shard["i"] % 2 == 0:
         sp.run_random(shard, ctx, GROUPS, nontrivial)
@@ -108,4 +194,4 @@ def run_shard(shard, ctx):  # noqa: F811 - replaces the purely random driver abo
         res = sp.run_case(case)
         sp.record(ctx, case, res, nontrivial(res), None, ["mode:scenario"])
 
-    hyp.run(scenarios(), shard["n"], shard["hseed"], body, ctx)
+    hyp.run(st.one_of(scenarios(), scenarios(), split_scenarios(), chain_merge_scenarios()), shard["n"], shard["hseed"], body, ctx)
